@@ -41,6 +41,16 @@ Definition dkg_validate (mpk : seq G2) (i s : F) : bool := dkg_pub s == dkg_pk_e
    same qualified set of parties, given by their coefficient lists css *)
 Definition dkg_sk (css : seq (seq F)) (i : F) : F := \sum_(cs <- css) dkg_share cs i.
 
+(* The party's state behind dkg_sk: receivedSecretShares is a map dealer id -> share
+   (AddSecretShare sets the entry of the dealer), AggregateSecretKeyShares sets Si to the sum of
+   the map's values, starting from zero (a local accumulator), whatever Si was before. *)
+Definition dkg_recv_add (recv : seq (F * F)) (j s : F) : seq (F * F) :=
+  if j \in unzip1 recv then [seq (if p.1 == j then (j, s) else p) | p <- recv]
+  else rcons recv (j, s).
+
+Definition dkg_aggregate (st : seq (F * F) * F) : seq (F * F) * F :=
+  (st.1, \sum_(p <- st.1) p.2).
+
 (* group secret (never materialised by the code) and group public key *)
 Definition dkg_gsk (css : seq (seq F)) : F := \sum_(cs <- css) cs`_0.
 Definition dkg_gpk (mpks : seq (seq G2)) : G2 := \sum_(mpk <- mpks) mpk`_0.
